@@ -1,7 +1,7 @@
 (* Property C16 - only statements, each closed by [exact]. *)
 From Coq Require Import NArith List Bool.
 Import ListNotations.
-Require Import UV.Gen.Consts UV.C16.Model UV.C16.Proofs UV.C16.Frame UV.C16.Dirs UV.C16.Files UV.C16.Pick UV.C16.NoMix.
+Require Import UV.Gen.Consts UV.C16.Model UV.C16.Proofs UV.C16.Frame UV.C16.Dirs UV.C16.Files UV.C16.Pick UV.C16.NoMix UV.C16.Merge.
 Local Open Scope N_scope.
 
 (* read_all: for EVERY segmentation of the stream (chunks of any size, EINTRs in between) a request of
@@ -49,9 +49,9 @@ Print Assumptions C16_header_swap_involutive.
 
 (* one message: any segmentation of [enc m ++ rest] is decoded to the action of m, leaving rest;
    payload sizes up to the int limit of the receiver (length field < 2^31). *)
-Theorem C16_frame_one_message : forall m t rest, wf_msg m = true -> good t = true ->
+Theorem C16_frame_one_message : forall fx m t rest, wf_msg m = true -> good t = true ->
   bytes_of t = enc m ++ rest ->
-  exists t', handle_client_sock t = Handled (action_of m) t' /\ good t' = true /\ bytes_of t' = rest.
+  exists t', handle_client_sock fx t = Handled (action_of m) t' /\ good t' = true /\ bytes_of t' = rest.
 Proof. exact handle_msg. Qed.
 Print Assumptions C16_frame_one_message.
 
@@ -231,9 +231,9 @@ Print Assumptions C16_same_dirname_separated.
 (* "whatever the sizes involved" holds up to the receiver's `int len`: a message whose length field is 2^31 or
    more (a single trace buffer or metadata file of 2 GiB) makes `uftrace recv` exit, whatever the segmentation.
    C16_frame_one_message is stated under exactly this guard (wf_msg: length field < 2^31). *)
-Theorem C16_sizes_from_2GiB_refuted : forall t ty len rest, good t = true -> bytes_of t = msg_hdr ty len ++ rest ->
+Theorem C16_sizes_from_2GiB_refuted : forall fx t ty len rest, good t = true -> bytes_of t = msg_hdr ty len ++ rest ->
   ty < 65536 -> INT_LIMIT <= len -> len < 4294967296 ->
-  match classify ty with KEnd | KOther => True | _ => handle_client_sock t = Died end.
+  match classify ty with KEnd | KOther => True | _ => handle_client_sock fx t = Died \/ handle_client_sock fx t = lost fx end.
 Proof. exact length_limit. Qed.
 Print Assumptions C16_sizes_from_2GiB_refuted.
 
@@ -283,3 +283,60 @@ Theorem C16_last_piece_mod_refuted :
   concat (bad_pieces 4 [1; 2; 3; 4; 5; 6; 7; 8]) = [1; 2; 3; 4] /\ concat (bad_pieces 4 [1; 2; 3; 4]) = [].
 Proof. exact bad_pieces_loses_data. Qed.
 Print Assumptions C16_last_piece_mod_refuted.
+
+(* SEVERAL WRITER THREADS, ONE SOCKET: when messages are atomic on the wire (send_iov holds send_lock around
+   writev_all - fix c9aa763), ANY interleaving of the senders' whole messages stores the same content in every file,
+   provided every file is written by one sender (a task's buffers are handed to one writer at a time, in order).
+   With same_as_local the receiver's directory is the same for all of them.  The refuted variant - interleaving
+   inside a message - is C16_shared_socket_refuted. *)
+Theorem C16_writer_threads_any_interleaving : forall owner s m1 m2, owned_by owner s -> merge s m1 -> merge s m2 ->
+  forall f, flookup f (local_dir m1) = flookup f (local_dir m2).
+Proof. exact merges_same_files. Qed.
+Print Assumptions C16_writer_threads_any_interleaving.
+
+Theorem C16_writer_threads_nonvacuous :
+  owned_by owner_ex s_ex /\
+  merge s_ex [MData 11 [1]; MData 22 [3]; MData 22 [4]; MData 11 [2]] /\
+  merge s_ex [MData 22 [3]; MData 11 [1]; MData 11 [2]; MData 22 [4]].
+Proof. exact merge_ex. Qed.
+Print Assumptions C16_writer_threads_nonvacuous.
+
+(* A CLIENT THAT DISAPPEARS (record killed, network down, a port scan): the connection ends before a whole header, or
+   inside a data message.  [lost true] = Handled AEnd []: since fix e00936f only that client's table entry goes (as
+   for a hang-up), the server lives and - by C16_no_mixing / C16_frame_roundtrip - every other client's directory is
+   unaffected.  [lost false] = Died: the code as found exited ("message recv failed") and took all transfers along. *)
+Theorem C16_lost_connection_header : forall fx t, (length (bytes_of t) < MSGHDR)%nat -> handle_client_sock fx t = lost fx.
+Proof. exact handle_truncated_header. Qed.
+Print Assumptions C16_lost_connection_header.
+
+Theorem C16_lost_connection_in_data : forall fx t ty len p, good t = true -> bytes_of t = msg_hdr ty len ++ p ->
+  ty < 65536 -> len < INT_LIMIT -> 4 <= len -> (length p < N.to_nat len)%nat ->
+  match classify ty with KData | KKernel | KPerf => handle_client_sock fx t = lost fx | _ => True end.
+Proof. exact truncated_data. Qed.
+Print Assumptions C16_lost_connection_in_data.
+
+Theorem C16_lost_connection_legacy_refuted : lost false = Died /\ lost true = Handled AEnd [].
+Proof. exact (conj eq_refl eq_refl). Qed.
+Print Assumptions C16_lost_connection_legacy_refuted.
+
+(* RAW NAMES: two live clients never share a directory, whatever names they announce; the table is keyed by the
+   lexically normalised name (fix 0e27370), so all spellings of one directory have one key. *)
+Theorem C16_live_directories_distinct : forall evs s g, grun evs server0 ghost0 = Some (s, g) -> NoDup (map snd (clients s)).
+Proof. exact live_dirs_distinct. Qed.
+Print Assumptions C16_live_directories_distinct.
+
+Theorem C16_aliases_one_key :
+  map norm [str_sess; str_dot_sess; str_sess_slash; str_a_up_sess; str_dd_sess; str_x_up_sess] =
+  [n_sess; n_sess; n_sess; n_sess; n_sess; n_sess] /\
+  norm [] = [46] /\ norm str_up_x = str_up_x /\ norm str_abs_up = str_abs_up_norm.
+Proof. exact aliases_one_key. Qed.
+Print Assumptions C16_aliases_one_key.
+
+Theorem C16_aliases_separated :
+  match grun evs_alias server0 ghost0 with
+  | Some (s, _) => fs s n_sess = Some [(n_default_opts, []); (dat_name 11, [65; 66])] /\
+                   fs s (cand_name n_sess 1) = Some [(n_default_opts, []); (dat_name 22, [67])]
+  | None => False
+  end.
+Proof. exact aliases_separated. Qed.
+Print Assumptions C16_aliases_separated.
